@@ -1021,6 +1021,9 @@ def family_reject():
         (['C11'], 'interface bound to itself', 'I', 'wire.Bind(new(I), new(I))'),
         (['C12'], 'unknown field name', 'S', 'NewA, wire.Struct(new(S), "Nope")'),
         (['C12'], 'field name differing only in case from an existing field', 'S', 'NewA, wire.Struct(new(S), "a")'),
+        (['C12'], 'field provider naming a prevented field', 'A', 'wire.Value(SPrev{}), wire.FieldsOf(new(SPrev), "A")'),
+        (['C12'], 'field provider naming a prevented field of a struct provided by pointer', 'A', 'wire.Value(&SPrev{}), wire.FieldsOf(new(*SPrev), "A")'),
+        (['C12'], 'struct provider naming a prevented field', 'SPrev', 'NewA, wire.Struct(new(SPrev), "A")'),
         (['C07'], 'cycle', 'CycA', 'NewCycA, NewCycB'),
         (['C09'], 'two parameters of identical type spelled byte / uint8', 'B', 'NewA, NewSpelled'),
         (['C09'], 'two struct fields of identical type spelled differently (func types differing in parameter names)', 'Hooks', 'wire.Struct(new(Hooks), "*"), wire.Value(func(req string) error { return nil })'),
@@ -1061,7 +1064,7 @@ def family_reject():
         (['C07'], 'provider depending on its own result', 'Self', 'NewSelf'),
         (['C07'], 'cycle of three providers behind a value', 'B', 'NewA, NewB, wire.NewSet(NewC3a, NewC3b, NewC3c)'),
     ]
-    extra = 'type MyErr struct{}\nfunc (*MyErr) Error() string { return "" }\nfunc NewAMyErr() (A, func(), *MyErr) { return A{}, nil, nil }\nfunc NewAMyErr2() (A, *MyErr) { return A{}, nil }\ntype SP *S\nfunc NewSPtr() *S { return &S{} }\ntype MyA A\nfunc NeedsMyA(m MyA) MyA { return m }\nfunc NewSFromCV(c C) S { return S{} }\ntype Twin struct{ X A; Y A }\ntype J2 interface{ Other() }\ntype J interface{ Other() }\ntype jimpl struct{}\nfunc (jimpl) Other() {}\nfunc NewJ() J { return jimpl{} }\nfunc NewSpelled(lo uint8, hi byte) B { return B{} }\ntype Hooks struct {\n\tBefore func(req string) error\n\tAfter  func(resp string) error\n}\ntype CycA struct{}\ntype CycB struct{}\nfunc NewCycA(b CycB) CycA { return CycA{} }\nfunc NewCycB(a CycA) CycB { return CycB{} }\nfunc NoResult() {}\n'
+    extra = 'type SPrev struct {\n\tA A `wire:"-"`\n\tN int\n}\n' + 'type MyErr struct{}\nfunc (*MyErr) Error() string { return "" }\nfunc NewAMyErr() (A, func(), *MyErr) { return A{}, nil, nil }\nfunc NewAMyErr2() (A, *MyErr) { return A{}, nil }\ntype SP *S\nfunc NewSPtr() *S { return &S{} }\ntype MyA A\nfunc NeedsMyA(m MyA) MyA { return m }\nfunc NewSFromCV(c C) S { return S{} }\ntype Twin struct{ X A; Y A }\ntype J2 interface{ Other() }\ntype J interface{ Other() }\ntype jimpl struct{}\nfunc (jimpl) Other() {}\nfunc NewJ() J { return jimpl{} }\nfunc NewSpelled(lo uint8, hi byte) B { return B{} }\ntype Hooks struct {\n\tBefore func(req string) error\n\tAfter  func(resp string) error\n}\ntype CycA struct{}\ntype CycB struct{}\nfunc NewCycA(b CycB) CycA { return CycA{} }\nfunc NewCycB(a CycA) CycB { return CycB{} }\nfunc NoResult() {}\n'
     extra += ('type Fooer interface{ Foo() }\ntype Foo struct{}\nfunc (*Foo) Foo() {}\nfunc NewFoo(f Fooer) *Foo { return &Foo{} }\ntype Other struct{}\nfunc NewOther() Other { return Other{} }\n'
               'type SA struct{ B CycB2 }\ntype CycB2 struct{}\nfunc NewCycB2(a SA) CycB2 { return CycB2{} }\ntype G struct{}\ntype SF struct{ G G }\nfunc NewSF(g G) SF { return SF{} }\n'
               'type Self struct{}\nfunc NewSelf(s Self) Self { return s }\ntype C3a struct{}\ntype C3b struct{}\ntype C3c struct{}\nfunc NewC3a(x C3c) C3a { return C3a{} }\nfunc NewC3b(x C3a) C3b { return C3b{} }\nfunc NewC3c(x C3b) C3c { return C3c{} }\n')
@@ -1075,6 +1078,17 @@ def family_reject():
             'wire.go': '//go:build wireinject\n// +build wireinject\n\npackage {PKG}\n\nimport "github.com/google/wire"\n\n%s\nfunc Inject(%s) %s {\n\tpanic(wire.Build(%s))\n}\n' % (setvars, args, rty, items),
         }
         specs.append(RawSpec(files, 'must be rejected: ' + lab, expect='reject', reject_props=props, family='reject'))
+    # injectors in two files: the diagnostics of one file must survive the (clean) analysis of the other, whichever comes first
+    hdr = '//go:build wireinject\n// +build wireinject\n\npackage {PKG}\n\nimport "github.com/google/wire"\n\n'
+    bad = 'func InjectBad() B {\n\tpanic(wire.Build(NewB))\n}\n'
+    good = 'func InjectGood() A {\n\tpanic(wire.Build(NewA))\n}\n'
+    for lab, first, second, third in (('first', bad, good, None), ('last', good, bad, None), ('middle', good, bad, good.replace('InjectGood', 'InjectGood2'))):
+        files = {'providers.go': 'package {PKG}\n\n' + base + extra, 'inject_a.go': hdr + first, 'inject_b.go': hdr + second}
+        if third:
+            files['inject_c.go'] = hdr + third
+        sp = RawSpec(files, 'must be rejected: injectors in %d files, the one with a missing leaf in the %s file' % (len(files) - 1, lab), expect='reject', reject_props=['C06', 'C17'], family='reject')
+        sp.diag_must_contain = 'no provider found'
+        specs.append(sp)
     # functions that call wire.Build but are not of the injector form (C20: the refusal needs a position; see D17)
     for lab, body in (('injector with a statement besides the wire.Build call', '\t_ = 42\n\tpanic(wire.Build(NewA))\n'),
                       ('injector with two wire.Build calls', '\tpanic(wire.Build(NewA))\n\tpanic(wire.Build(NewA))\n')):
@@ -1556,6 +1570,27 @@ def family_frontend():
                          '\tvrt.Reset()\n\t_ = Inject()\n\tvrt.Cover("zoo-checked")\n}\n'),
     }
     specs.append(RawSpec(files2, 'copied declarations whose locals collide with each other after renaming (same scope)', family='frontend', extra_pkgs=extra, compile_props=['C01', 'C15', 'C14']))
+    # --- two values of homonymous types from two packages in ONE injector: their package-level variables need distinct names (S135)
+    files = {
+        'providers.go': 'package {PKG}\n\nimport (\n\ta "example.com/corpus/{PKG}/a/opts"\n\tb "example.com/corpus/{PKG}/b/opts"\n)\n\ntype Svc struct{ N int }\n\nfunc NewSvc(x a.Options, y b.Options, px *a.Options) Svc { return Svc{N: x.N*100 + y.N*10 + px.N} }\n',
+        'wire.go': ('//go:build wireinject\n// +build wireinject\n\npackage {PKG}\n\nimport (\n\t"github.com/google/wire"\n\ta "example.com/corpus/{PKG}/a/opts"\n\tb "example.com/corpus/{PKG}/b/opts"\n)\n\n'
+                    'func Inject() Svc {\n\tpanic(wire.Build(wire.Value(a.Options{N: 3}), wire.Value(b.Options{N: 4}), wire.Value(&a.Options{N: 5}), NewSvc))\n}\n\n'
+                    'func InjectTwice() Svc {\n\tpanic(wire.Build(wire.Value(b.Options{N: 7}), wire.Value(&a.Options{N: 8}), wire.Value(a.Options{N: 6}), NewSvc))\n}\n'),
+        'zz_driver.go': ('//go:build !wireinject\n// +build !wireinject\n\npackage {PKG}\n\nimport "example.com/corpus/vrt"\n\nfunc VDrive() {\n'
+                         '\tvrt.A("C10,C14,C13", Inject().N == 345 && InjectTwice().N == 678 && Inject().N == 345, "values of equally named types of two packages (and the pointer form) in one injector each keep their own package-level variable")\n\tvrt.Cover("zoo-checked")\n}\n'),
+    }
+    extra = {'a/opts': {'opts.go': 'package opts\n\ntype Options struct{ N int }\n'}, 'b/opts': {'opts.go': 'package opts\n\ntype Options struct{ N int }\n'}}
+    specs.append(RawSpec(files, 'values of equally named types of two packages, value and pointer forms, in one injector and again in a second one', family='frontend', extra_pkgs=extra, compile_props=['C01', 'C10', 'C14']))
+    # --- a value written in a package that has the injector package's NAME (another path), namesake variable in the injector package (S133);
+    #     the values family has the same shape for C13, this one is run by C02 / C10 / C14 too
+    files = {
+        'providers.go': 'package {PKG}\n\nvar Endpoint = 1\n\nvar Label = "app"\n',
+        'wire.go': ('//go:build wireinject\n// +build wireinject\n\npackage {PKG}\n\nimport (\n\t"github.com/google/wire"\n\tlib "example.com/corpus/{PKG}/lib"\n)\n\nfunc Inject() int {\n\tpanic(wire.Build(lib.Set))\n}\n\nfunc InjectLabel() string {\n\tpanic(wire.Build(lib.LabelSet))\n}\n'),
+        'zz_driver.go': ('//go:build !wireinject\n// +build !wireinject\n\npackage {PKG}\n\nimport (\n\t"example.com/corpus/vrt"\n\tlib "example.com/corpus/{PKG}/lib"\n)\n\nfunc VDrive() {\n'
+                         '\tvrt.A("C02,C13", Inject() == lib.Endpoint && Inject() != Endpoint && InjectLabel() == "lib" && Label == "app", "a value written in a package that has the injector package\'s name (another path) is that package\'s variable, not the namesake of the injector package")\n\tvrt.Cover("zoo-checked")\n}\n'),
+    }
+    specs.append(RawSpec(files, 'value identifiers written in a package whose name equals the injector package\'s name (different import path), namesake variables in both', family='frontend', compile_props=['C01', 'C02', 'C13'],
+                         extra_pkgs={'lib': {'lib.go': 'package {PKG}\n\nimport (\n\t"example.com/corpus/vrt"\n\t"github.com/google/wire"\n)\n\nvar Endpoint = vrt.ArgID("base") + 7\n\nvar Label = "lib"\n\nvar Set = wire.NewSet(wire.Value(Endpoint))\n\nvar LabelSet = wire.NewSet(wire.Value(Label))\n'}}))
     return specs
 
 
